@@ -53,6 +53,10 @@ func twapRecordLifecycleRules(c *rules.Ctx) {
 	}
 	c.HasCall(T+"gammhook.AfterCFMMPoolCreated", "twap.Keeper.mustTrackCreatedPool", []string{"_", "ctx", "poolId"}, true, "pool creation creates the pool's records", "")
 	c.HasCall(T+"concentratedLiquidityListener.AfterConcentratedPoolCreated", "twap.Keeper.mustTrackCreatedPool", []string{"_", "ctx", "poolId"}, true, "creation of a concentrated pool creates its records", "")
+	// the pool modules notify on every successful price-moving operation (a swap that stays inside its tick moves the price too)
+	c.HasCall("x/concentrated-liquidity.Keeper.updatePoolForSwap", "cltypes.ConcentratedLiquidityListeners.AfterConcentratedPoolSwap", []string{"k.listeners", "ctx", "_", "cltypes.ConcentratedPoolExtension.GetId(pool)", "_", "_"}, true, "every successful concentrated swap notifies the listeners with the pool's id", "")
+	c.HasCall("x/gamm/keeper.Keeper.updatePoolForSwap", "gammtypes.GammHooks.AfterCFMMSwap", []string{"k.hooks", "ctx", "_", "poolmanagertypes.PoolI.GetId(pool)", "_", "_"}, true, "every successful classic-pool swap fires the swap hook with the pool's id", "")
+	c.HasCall("x/gamm/keeper.Keeper.applyJoinPoolStateChange", "gammtypes.GammHooks.AfterJoinPool", []string{"k.hooks", "ctx", "_", "poolmanagertypes.PoolI.GetId(pool)", "_", "_"}, true, "every successful join fires the join hook with the pool's id", "")
 	// the changed-pool set is written and read with the same encoding
 	c.CallArg(T+"Keeper.trackChangedPool", "binary.littleEndian.PutUint64", 2, "poolId", "the changed-pool key encodes the pool id")
 	c.Returns(T+"Keeper.getChangedPools", 0, "phi(list(), append(#self, list(binary.littleEndian.Uint64(_, cosmos-db.Iterator.Key(_)))))", "…and is decoded with the same byte order, every key once", "")
@@ -135,4 +139,17 @@ func balancerPokeRules(c *rules.Ctx) {
 	c.Let("SW", "p.PoolParams.SmoothWeightChangeParams")
 	c.ReachedWhen(PP, "balancer.Pool.updateAllWeights", "ne({SW},nil) & not(time.Time.Before(blockTime,{SW}.StartTime)) & not(time.Time.Equal({SW}.StartTime,blockTime)) & time.Time.After(blockTime, time.Time.Add({SW}.StartTime, {SW}.Duration))", "a poke after the end of the weight change sets the weights through updateAllWeights (total weight kept in step)")
 	c.CallArg(PP, "balancer.Pool.updateAllWeights", 0, "p", "…on the poked pool")
+}
+
+// gaugeEpochPartitionRules (C09): at an epoch end the active gauges are split between two distributors — the
+// superfluid routine takes exactly the perpetual gauges on a synthetic denom, the incentives hook exactly the rest —
+// so that every gauge is paid once per epoch, never twice and never not at all.
+func gaugeEpochPartitionRules(c *rules.Ctx) {
+	const SF = "x/superfluid/keeper.Keeper.distributeSuperfluidGauges"
+	c.Let("SG", "elem(superfluidtypes.IncentivesKeeper.GetActiveGauges(k.ik,ctx))")
+	c.OnlyWhen(SF, "append", "lockuptypes.IsSyntheticDenom({SG}.DistributeTo.Denom) & {SG}.IsPerpetual", "the superfluid routine distributes a gauge only when it is perpetual AND on a synthetic denom (anything else is paid by the incentives hook)")
+	const H = "x/incentives/keeper.Keeper.AfterEpochEnd"
+	c.Let("IG", "elem(incentiveskeeper.Keeper.GetActiveGauges(k,ctx))")
+	c.OnlyWhen(H, "append", "not(lockuptypes.IsSyntheticDenom({IG}.DistributeTo.Denom)) | not({IG}.IsPerpetual)", "the incentives hook leaves out exactly the perpetual gauges on a synthetic denom")
+	c.CallArg(SF, "superfluidtypes.IncentivesKeeper.Distribute", 2, "phi(list(), append(#self, list({SG})))", "the list distributed is the filtered list")
 }
